@@ -31,7 +31,7 @@ def nosite(e):
     return tuple(nosite(x) if isinstance(x, tuple) else x for x in e)
 
 
-def known_short(A, R, rels):
+def known_short(A, R, rels, facts=None):
     """is `A < R` among (or immediate from) the relations of the path?"""
     a, r = nosite(canon(A)), nosite(canon(R))
     if isinstance(a, tuple) and isinstance(r, tuple) and a[0] == "const" and r[0] == "const" and isinstance(a[1], int) and isinstance(r[1], int):
@@ -46,8 +46,67 @@ def known_short(A, R, rels):
             return True
         if rel[0] == "lt" and a == ("const", 0) and x == ("const", 0) and y == r:
             return True
-    # available = remaining() with has_remaining() == false known, requested a positive literal
+    # arithmetic forms (`available: cap - len` in the arm where `len.checked_add(cnt)` is None or exceeds `cap`): linear-inequality entailment
+    try:
+        from .lin import State, USIZE_MAX
+        rs = [tuple(nosite(canon(x)) if isinstance(x, tuple) else x for x in rel) for rel in rels if rel]
+        for rel in list(rs):
+            # `x.checked_add(y)` is None: the mathematical sum does not fit a usize
+            if rel[0] in ("truth", "notin") and isinstance(rel[1], tuple) and rel[1] and rel[1][0] == "discr":
+                c = rel[1][1]
+                is_none = (rel[0] == "truth" and rel[2] == 0) or (rel[0] == "notin" and 1 in tuple(rel[2]) and 0 not in tuple(rel[2]))
+                if isinstance(c, tuple) and c and c[0] == "call" and c[1].rsplit("::", 1)[-1] == "checked_add" and len(c[2]) == 2 and is_none:
+                    rs.append(("lt", ("const", USIZE_MAX), ("bin", "Add", c[2][0], c[2][1])))
+        for x in walk(a):
+            if isinstance(x, tuple) and x and x[0] in ("call", "ucall", "field", "param") and x != a:
+                rs.append(("le", x, ("const", USIZE_MAX)))
+        st = State(rs, facts=facts)
+        if not st.refuted() and st.entails(("lt", a, r)):
+            return True
+    except Exception:
+        pass
     return False
+
+
+def judge_panic_sites(facts, b, only_blocks=None):
+    from .flow import relations_at, ExprBuilder
+    out = []
+    eb = None
+    for bi, blk in enumerate(b.blocks):
+        if blk["cleanup"] or (only_blocks is not None and bi not in only_blocks):
+            continue
+        j = 0
+        for si, st_ in enumerate(blk["stmts"]):
+            if st_["k"] == "assign" and st_["rv"]["k"] == "agg" and str(st_["rv"].get("adt", "")).endswith("TryGetError"):
+                f = dict(zip(st_["rv"]["fields"], st_["rv"]["ops"]))
+                if "requested" not in f or "available" not in f:
+                    continue
+                eb = eb or ExprBuilder(b, facts, inline=False)
+                R = canon(eb.operand(f["requested"], (bi, si)))
+                A = canon(eb.operand(f["available"], (bi, si)))
+                rels = relations_at(b, bi, facts, inline=False)
+                ok = known_short(A, R, rels, facts)
+                if not ok:
+                    # the error arm may be the join of several refusals (`match len.checked_add(cnt) { Some(n) if n <= cap => .., _ => panic }`):
+                    # decided path by path
+                    from .flow import feasible_paths_to, PathExprBuilder, path_relations
+                    n_p = 0
+                    allok = True
+                    for path in feasible_paths_to(b, bi, limit=300):
+                        n_p += 1
+                        pe = PathExprBuilder(b, facts, path, inline=False)
+                        Rp = canon(pe.operand(f["requested"], (bi, si)))
+                        Ap = canon(pe.operand(f["available"], (bi, si)))
+                        if not known_short(Ap, Rp, path_relations(b, facts, path), facts):
+                            allok = False
+                            break
+                    ok = allok and n_p > 0
+                out.append({"bi": bi, "j": j, "ok": ok, "nontrivial": True,
+                            "text": "TryGetError { requested, available } is built under available < requested" if ok else
+                                    "TryGetError { requested: %s, available: %s } is built (for a panic) although available < requested is not known there: "
+                                    "a request that fits exactly is refused" % (fmt_expr(R)[:40], fmt_expr(A)[:40])})
+                j += 1
+    return out
 
 
 def rooted_at_self(e, b=None):
@@ -181,7 +240,7 @@ def run(facts):
                                 from .flow import path_relations
                                 rels = path_relations(b, facts, path)
                                 n_errs += 1
-                                if not known_short(A, R, rels):
+                                if not known_short(A, R, rels, facts):
                                     short_bad = (path, A, R)
             if fail_at is None:
                 # a path that hands out a value: Ok(..) built here must come after exactly one consuming step
@@ -211,8 +270,9 @@ def run(facts):
         else:
             res.ok(key, b.loc(), "%d path(s) can end in Err, none after a consuming call" % n_err, nontrivial=n_err > 0)
     # the panicking counterparts (`get_*`, `put_*`, `advance*`, `copy_to_slice`, ..): the TryGetError handed to panic_advance says
-    # "requested R, only A available" - where it is built, A < R must be known, otherwise a request that fits is refused with a panic
-    from .flow import relations_at, ExprBuilder
+    # "requested R, only A available" - where it is built, A < R must be known, otherwise a request that fits is refused with a panic.
+    # Judged as sites (rules/inline.resolve_sites): a helper that only builds / raises the error from its parameters is judged in its callers.
+    from .inline import resolve_sites
     n_pan = 0
     for b in facts.fn_bodies():
         if facts.is_test(b) or b.kind not in ("fn", "assoc_fn", "closure"):
@@ -221,28 +281,18 @@ def run(facts):
         out = str(b.j.get("output") or (b.locals[0]["ty"] if b.locals else ""))
         if (name.startswith("try_") or b.kind == "closure") and "TryGetError" in out:
             continue            # judged above, path by path
-        eb = None
+        if not any(st_["k"] == "assign" and st_["rv"]["k"] == "agg" and str(st_["rv"].get("adt", "")).endswith("TryGetError")
+                   for blk in b.blocks if not blk["cleanup"] for st_ in blk["stmts"]):
+            continue
         cnt = 0
-        for bi, blk in enumerate(b.blocks):
-            if blk["cleanup"]:
-                continue
-            for si, st_ in enumerate(blk["stmts"]):
-                if st_["k"] == "assign" and st_["rv"]["k"] == "agg" and str(st_["rv"].get("adt", "")).endswith("TryGetError"):
-                    f = dict(zip(st_["rv"]["fields"], st_["rv"]["ops"]))
-                    if "requested" not in f or "available" not in f:
-                        continue
-                    eb = eb or ExprBuilder(b, facts, inline=False)
-                    R = canon(eb.operand(f["requested"], (bi, si)))
-                    A = canon(eb.operand(f["available"], (bi, si)))
-                    n_pan += 1
-                    cnt += 1
-                    key = "%s|panics only when short%s" % (b.id, "#%d" % cnt if cnt > 1 else "")
-                    rels = relations_at(b, bi, facts, inline=False)
-                    if known_short(A, R, rels):
-                        res.ok(key, b.loc(bi), "TryGetError { requested, available } is built under available < requested", nontrivial=True)
-                    else:
-                        res.bad(key, b.loc(bi), "TryGetError { requested: %s, available: %s } is built (for a panic) although available < requested is not known there: "
-                                                "a request that fits exactly is refused" % (fmt_expr(R)[:40], fmt_expr(A)[:40]))
+        for x in resolve_sites(facts, b, lambda view, only: judge_panic_sites(facts, view, only), keep_names=("panic_advance",)):
+            n_pan += 1
+            cnt += 1
+            key = "%s|panics only when short%s" % (b.id, "#%d" % cnt if cnt > 1 else "")
+            if x["ok"]:
+                res.ok(key, b.loc(x["bi"]), x["text"], nontrivial=True)
+            else:
+                res.bad(key, b.loc(x["bi"]), x["text"])
     res.floor("try_* readers", n, 60)
-    res.floor("panic sites with a TryGetError", n_pan, 10)
+    res.floor("panic sites with a TryGetError", n_pan, 3)
     return res
